@@ -1,0 +1,29 @@
+// Verification hooks. Compiled only with `--cfg rws_verif`; without that flag this module does not exist.
+// A process-global optional callback which is invoked at the synchronisation points of the thread pool.
+// Nothing is installed by default, so the hooks are no-ops unless a test harness installs a callback.
+
+use std::sync::{Arc, RwLock};
+
+pub type PoolEventCallback = Arc<dyn Fn(&'static str, usize) + Send + Sync + 'static>;
+
+static POOL_EVENT_CALLBACK: RwLock<Option<PoolEventCallback>> = RwLock::new(None);
+
+pub const POOL_EVENT_LOCKED: &'static str = "locked";
+pub const POOL_EVENT_RECEIVED: &'static str = "received";
+pub const POOL_EVENT_FINISHED: &'static str = "finished";
+pub const POOL_EVENT_SUBMIT: &'static str = "submit";
+
+pub fn set_pool_event_callback(callback: Option<PoolEventCallback>) {
+    let mut guard = POOL_EVENT_CALLBACK.write().unwrap_or_else(|poisoned| poisoned.into_inner());
+    *guard = callback;
+}
+
+pub fn pool_event(kind: &'static str, id: usize) {
+    let callback = {
+        let guard = POOL_EVENT_CALLBACK.read().unwrap_or_else(|poisoned| poisoned.into_inner());
+        guard.clone()
+    };
+    if callback.is_some() {
+        (callback.unwrap())(kind, id);
+    }
+}
